@@ -241,7 +241,8 @@ func c19unit(e common.Env, p *common.Part, kind string, nts []nt, reps int) {
 			// (b) digests
 			digs := c19digests(rng)
 			if kind == "ecdsa" {
-				digs = digs[:3]
+				// leading zeros and digests longer than the curve order (SHA-384 / SHA-512 sized)
+				digs = [][]byte{digs[0], digs[1], digs[7], append(append([]byte{}, digs[0]...), digs[5][:16]...)}
 			}
 			for di, d := range digs {
 				signers := pickSigners(rng, ids, x.t+1)
